@@ -31,6 +31,8 @@ type world struct {
 	freshN int
 	// property oracle bookkeeping (per env)
 	lastK map[string]*big.Int
+	// witness cases run inputs the theorems exclude by hypothesis; the oracle is then replaced by an expectation
+	noOracle bool
 }
 
 func (w *world) close() {
@@ -66,6 +68,9 @@ func (w *world) replay() any {
 // property oracle, evaluated on the real state only
 
 func (w *world) oracle(env string, before, after *Snapshot, op string, minted *big.Int) {
+	if w.noOracle {
+		return
+	}
 	// conservation: these operations only move tokens
 	want := new(big.Int).Add(before.Total(), minted)
 	if after.Total().Cmp(want) != 0 {
@@ -287,7 +292,7 @@ func (w *world) swaps(env string, chain uint64, ords *lib.Orders) {
 	gone := new(big.Int).Sub(bs, as)
 	escDelta := new(big.Int).Sub(new(big.Int).SetUint64(before.pool(chain+escrowAdd).Amount), new(big.Int).SetUint64(after.pool(chain+escrowAdd).Amount))
 	gain := new(big.Int).Sub(after.accountsTotal(), before.accountsTotal())
-	if gone.Cmp(escDelta) != 0 || gone.Cmp(gain) != 0 {
+	if !w.noOracle && (gone.Cmp(escDelta) != 0 || gone.Cmp(gain) != 0) {
 		w.o.Fail("C20:close-not-exact", fmt.Sprintf("env %s chain %d %q: orders removed %d worth %s, escrow paid %s, accounts gained %s", env, chain, op, bn-an, gone, escDelta, gain), w.replay())
 	}
 	if bn != an {
@@ -424,6 +429,46 @@ func newWorld(o *drv.Out, id string) *world {
 	return w
 }
 
+// witnessCase runs, on the real handlers, the two points the hypotheses of escrow_eq exclude (theorems
+// escrow_breaks_on_reused_id and escrow_wraps_beyond_uint64): the model must agree with the real code there too,
+// and the real state must show exactly the predicted breakage.
+func witnessCase(o *drv.Out) {
+	w := newWorld(o, "witness-escrow")
+	w.noOracle = true
+	w.chains = []uint64{2}
+	a := w.addrs[0]
+	id1, id2 := make([]byte, 20), make([]byte, 20)
+	for i := range id1 {
+		id1[i], id2[i] = 1, 2
+	}
+	check := func(what string, wantEscrow, wantOrders string) {
+		snap, _ := w.envs["R"].Snapshot(w.chains)
+		sum, _ := snap.openOrders(2)
+		esc := fmt.Sprint(snap.pool(2 + escrowAdd).Amount)
+		if esc != wantEscrow || sum.String() != wantOrders {
+			o.Fail("C20:witness-mismatch:"+what, fmt.Sprintf("real code: escrow %s (expected %s), open orders %s (expected %s)", esc, wantEscrow, sum, wantOrders), w.replay())
+		} else {
+			o.Count("witness:" + what + ":reproduced-on-real-code")
+		}
+	}
+	w.initEnv("R", 1, 1, 0, 2)
+	w.fund("R", a, 1000)
+	w.create("R", 2, id1, a, 300, 7, []byte{9}, nil)
+	w.create("R", 2, id1, a, 300, 7, []byte{9}, nil) // same id again: overwrites, escrow credited twice
+	check("reused-id", "600", "300")
+	w.close()
+	w = newWorld(o, "witness-wrap")
+	w.noOracle = true
+	w.chains = []uint64{2}
+	w.initEnv("R", 1, 1, 0, 2)
+	w.fund("R", a, ^uint64(0))
+	w.create("R", 2, id1, a, ^uint64(0), 7, []byte{9}, nil)
+	w.fund("R", a, 2) // more than 2^64 tokens now exist
+	w.create("R", 2, id2, a, 2, 7, []byte{9}, nil)
+	check("uint64-wrap", "1", "18446744073709551617")
+	w.close()
+}
+
 // Run is the entry point of the C20 driver.
 func Run(o *drv.Out) {
 	nSell, lenSell, nArith := 40, 60, 200_000
@@ -434,6 +479,7 @@ func Run(o *drv.Out) {
 	}
 	arith(o, nArith)
 	txIDProbe(o)
+	witnessCase(o)
 	for i := 0; i < nSell; i++ {
 		w := newWorld(o, fmt.Sprintf("sell-%d", i))
 		w.sellOrderCase(lenSell)
